@@ -26,7 +26,7 @@ LEVEL = "proof"
 RULE = ("pairs of diagrams from one PRNG: sizes 0-7 (quick) / 0-7, 0-16, 0-40 (thorough); coordinates from lattice/half/"
         "dyadic/decimal/uniform modes (lattice modes force ties), b <= d, repeated points (p=0.2), diagonal points, points "
         "shared between the two diagrams, non-finite deaths (+inf mostly, -inf/NaN rarely; sometimes a whole side), empty "
-        "sides given as [] or a (0,2) array, a global power-of-two scale 2^-20..2^20; non-trivial = both sides keep a finite "
+        "sides given as [] or a (0,2) array, a global power-of-two scale 2^-40..2^40 (on top of the per-coordinate 2^-20..2^20 of the dyadic mode); non-trivial = both sides keep a finite "
         "point and there are >= 3 finite points in total; distinct by digest of the pair")
 ASSUMPTIONS = [
     "diagrams are (n,2): births finite, deaths finite or non-finite (dropped with a warning); extra columns and non-finite births are outside the model",
@@ -60,6 +60,10 @@ def gen_pair(ctx, nmax):
     mode2 = mode if r.random() < 0.8 else g.mode()
     d1 = g.diagram(nmax, mode, allow_diag=True, dup=0.2)
     d2 = g.diagram(nmax, mode2, allow_diag=True, dup=0.2)
+    if not d1 and r.random() < 0.6:      # keep empty inputs, but not a quarter of all cases
+        d1 = g.diagram(nmax, mode, allow_diag=True, allow_empty=False, dup=0.2)
+    if not d2 and r.random() < 0.6:
+        d2 = g.diagram(nmax, mode2, allow_diag=True, allow_empty=False, dup=0.2)
     if r.random() < 0.03:
         d1 = []
     if r.random() < 0.03:
@@ -70,7 +74,7 @@ def gen_pair(ctx, nmax):
                 d2.insert(r.randint(0, len(d2)), list(r.choice(d1)))
     k = 0
     if r.random() < 0.35:
-        k = r.choice([-20, -10, -3, 3, 10, 20])
+        k = r.choice([-40, -20, -20, -10, -3, 3, 10, 20, 20, 40])
         s = 2.0 ** k
         d1 = [[p[0] * s, p[1] * s] for p in d1]
         d2 = [[p[0] * s, p[1] * s] for p in d2]
@@ -122,6 +126,8 @@ def agree(a, b, scale):
     a, b = float(a), float(b)
     if math.isnan(a) or math.isnan(b) or math.isinf(a) or math.isinf(b):
         return False
+    if scale == 0.0:        # every coordinate is 0 (or both sides empty): the value is 0 up to the code's own constants
+        return abs(a - b) <= 1e-12
     return abs(a - b) <= TOL * scale
 
 
@@ -346,18 +352,32 @@ def sizes_of(case):
     return len(S), len(T), max(1, len(S)), max(1, len(T))
 
 
+ANCHOR = "persim/wasserstein.py"
+ANCHOR_DIGEST = "23f9a8a5b5293f05"       # structural digest of `wasserstein` when the model was written
+
+
 def run(ctx):
     r = ctx.rng
     cases = [dict(c) for c in CORPUS]
-    n_small = ctx.n(2500, 24000)
-    n_mid = ctx.n(0, 4000)
-    n_big = ctx.n(0, 700)
+    digest = common.source_digest(ANCHOR, ["wasserstein"])
+    ctx.extra["anchor_digest"] = {"file": ANCHOR, "now": digest, "modelled": ANCHOR_DIGEST}
+    boost = 1
+    if digest != ANCHOR_DIGEST:         # rewritten code is explored harder (DESIGN.md 3.2); not a violation
+        ctx.count("anchor_changed_budget_x3")
+        boost = 3
+    n_small = ctx.n(2500, 24000) * boost
+    n_mid = ctx.n(0, 4000) * boost
+    n_big = ctx.n(0, 700) * boost
     cases += [gen_pair(ctx, 7) for _ in range(n_small)]
     cases += [gen_pair(ctx, 16) for _ in range(n_mid)]
     cases += [gen_pair(ctx, 40) for _ in range(n_big)]
 
-    # 1. the real code first
-    codes = [run_code(c) for c in cases]
+    # 1. the real code first (line coverage of the anchored file measured on a slice)
+    ncov = min(len(cases), 300)
+    with common.LineCov([ANCHOR]) as cov:
+        codes = [run_code(c) for c in cases[:ncov]]
+    ctx.extra["anchored_line_coverage"] = cov.summary()
+    codes += [run_code(c) for c in cases[ncov:]]
 
     # 2. the model: its matrix at every size, its exhaustive value where small
     lines, slots = [], []
